@@ -141,7 +141,10 @@ pub fn run(o: &Opts) -> Report {
         let mk_op = |name: &'static str, path: &str, dest: Option<&str>| Op { name, path: path.to_string(), bytes: None, dest: dest.map(|d| d.to_string()), time: None };
         let mut curated: Vec<Op> = vec![];
         if matches!(cfg_kind, "fault(mem)" | "alt(fault(mem))" | "ovl(fault(mem),fault(mem))") || (o.thorough() && !phys) {
-            curated = vec![mk_op("walk", "", None), mk_op("copy_dir", "/a", Some("/c/d")), mk_op("move_dir", "/a", Some("/c/d")), mk_op("remove_dir_all", "/a", None), mk_op("read_dir", "/a", None), mk_op("remove_dir", "/a/a", None)];
+            curated = vec![mk_op("walk", "", None), mk_op("copy_dir", "/a", Some("/c/d")), mk_op("move_dir", "/a", Some("/c/d")), mk_op("remove_dir_all", "/a", None), mk_op("read_dir", "/a", None), mk_op("remove_dir", "/a/a", None),
+                // re-creation of a path that was removed before (on overlays: its deletion marker is in place, and
+                // clearing it is the LAST underlying call of the re-creation)
+                Op { name: "write", path: "/c/d".into(), bytes: Some(b"again".to_vec()), dest: None, time: None }, mk_op("create_dir", "/c/d", None), mk_op("create_dir_all", "/c/d/e", None)];
         }
         for si in 0..(reps + curated.len()) {
             let forced: Option<Op> = if si >= reps { Some(curated[si - reps].clone()) } else { None };
@@ -162,6 +165,8 @@ pub fn run(o: &Opts) -> Report {
                     format!("op {} create_dir_all {}", target, enc_str("/a/a")),
                     format!("op {} write {} {}", target, enc_str("/a/a/b"), enc_bytes(b"deep")),
                     format!("op {} create_dir {}", target, enc_str("/c")),
+                    format!("op {} write {} {}", target, enc_str("/c/d"), enc_bytes(b"gone")),
+                    format!("op {} remove_file {}", target, enc_str("/c/d")),
                 ] {
                     world.exec(&l);
                     setup.push(l);
